@@ -46,6 +46,12 @@ def get_func_in_module(module: str, qualname: str) -> Callable[..., Any]:
         raise InvalidTypeError(
             f"{module}.{qualname} is of type '{type(func)}', not function."
         )
+    if getattr(func, "__qualname__", qualname) != qualname:
+        # The name is bound to another function than the one that was traced,
+        # e.g. the wrapper of a decorator that does not use functools.wraps.
+        raise InvalidTypeError(
+            f"{module}.{qualname} is bound to {func.__qualname__}, not to {qualname}."
+        )
     return func  # type: ignore[no-any-return]
 
 
